@@ -17,7 +17,7 @@ LABEL = re.compile(r'^(footnote|endnote)[^)\t]*\)\t')
 ATTR = {'officeDocument': 'body', 'header': 'header', 'footer': 'footer', 'footnotes': 'footnotes', 'endnotes': 'endnotes'}
 
 
-def check_part(ctx, case, outpars, srcpars, dup, features):
+def check_part(ctx, case, outpars, srcpars, dup, features, mult=None):
     """outpars: flat list of output paragraph strings of one attribute; srcpars: ParInfo of the parts feeding it"""
     toks_out = [src.TOKEN.findall(s) for s in outpars]
     where = {}
@@ -31,7 +31,9 @@ def check_part(ctx, case, outpars, srcpars, dup, features):
         occ = where.get(p.tokens[0], [])
         if not occ:
             ctx.fail('text of a source paragraph is missing from the output', case, {'paragraph': p.k, 'part': p.part, 'tokens': p.tokens}, features=features); return False
-        if not dup and any(len(where.get(t, [])) != 1 or toks_out[where[t][0]].count(t) != 1 for t in p.tokens):
+        # (a part that is the target of k relationships of its kind is extracted k times: once per relationship)
+        k = (mult or {}).get(p.part, 1)
+        if not dup and any(len(where.get(t, [])) != k or any(toks_out[w].count(t) != 1 for w in where[t]) for t in p.tokens):
             ctx.fail('a text node occurs more than once (or not at all) in the output', case, {'paragraph': p.k, 'part': p.part, 'tokens': p.tokens, 'where': {t: where.get(t) for t in p.tokens}}, features=features); return False
         i = occ[0]
         if toks_out[i] != p.tokens:
@@ -87,8 +89,10 @@ def one(ctx, data, meta=None, opts=((False, True), (False, False))):
         if not compare_keys(ctx, 'plain view', data, html, dup, i, m, VIEWS + ['text']): good = False
         for ty, attr in ATTR.items():
             if 'ok' not in i.get(attr, {}): ctx.skipped_raises += 1; continue
-            sp = [p for t, path in sorted(cps, key=lambda x: x[1]) if t == ty and path in parts for p in src.paragraphs(parts[path], path)]
-            if not check_part(ctx, {**case, 'attribute': attr}, flat(i[attr]['ok'], 4), sp, dup, feats): good = False
+            paths = [path for t, path in sorted(cps, key=lambda x: x[1]) if t == ty and path in parts]
+            mult = {path: paths.count(path) for path in paths}
+            sp = [p for path in dict.fromkeys(paths) for p in src.paragraphs(parts[path], path)]
+            if not check_part(ctx, {**case, 'attribute': attr}, flat(i[attr]['ok'], 4), sp, dup, feats, mult): good = False
     if good: ctx.validated += 1
     if meta and meta['stats'].get('ri:text', 0) >= 5 and meta['stats'].get('par', 0) >= 3: ctx.nontrivial(jhash(data.hex()))
     return good
